@@ -1,9 +1,28 @@
-(** C15 - ApplyDefaults only adds declared defaults; ValidateDefaults checks them.  (partial:
-    idempotence and "every inserted value is a declared default" are evaluated as laws on
-    the package and decided by the correspondence, not proved) *)
+(** C15 - ApplyDefaults only adds declared defaults, idempotently; ValidateDefaults checks them.
+    Proofs: dfl/DefaultsFacts.v, dfl/Idempotent.v. *)
 From Coq Require Import List NArith ZArith QArith Bool.
-From JS Require Import Str Lit Json Res GoValue Hash Schema CodecBase Basic Env Ann Validate Resolve Defaults DefaultsFacts.
+From JS Require Import Str Lit Json Res GoValue Hash Schema CodecBase Basic Env Ann Validate Resolve Defaults DefaultsFacts Idempotent.
 Import ListNotations.
+
+(** applying the defaults again changes nothing (instances with distinct member names,
+    schemas whose property maps have distinct keys - Go maps) *)
+Theorem C15_idempotent : forall n s j, props_nodup n s -> json_wf j = true ->
+  apply_defaults n s (apply_defaults n s j) = apply_defaults n s j.
+Proof. exact apply_idempotent. Qed.
+Print Assumptions C15_idempotent.
+
+(** what is inserted for an absent non-required property: its declared default completed
+    with the nested defaults, or (without one) an object completed with the defaults below it
+    when there are any, and otherwise nothing *)
+Theorem C15_inserted : forall n s l m k sub,
+  NoDup (keys l) -> In (k, sub) l -> is_required s k = false -> lookup k m = None ->
+  lookup k (fold_left (step n s) l m) =
+  match s_default sub with
+  | Some d => Some (apply_defaults n sub (doc_value d))
+  | None => if has_defaults n sub then Some (apply_defaults n sub (JObj [])) else None
+  end.
+Proof. exact inserted_value. Qed.
+Print Assumptions C15_inserted.
 
 (** every value already present is kept (objects may only grow): the result extends the instance *)
 Theorem C15_extends : forall n s j, json_le j (apply_defaults n s j).
